@@ -296,7 +296,7 @@ EXTRA = {
             "velocity, spiral point, mutant - are oracle tape entries recomputed by the harness) with closure theorems "
             "C01_pso_iterate, C01_spiral_iterate, C01_de_iterate, C01_es_iterate, C01_cross_or_climb (in box and feasible for every tape), tied "
             "to /repo by an S-unit replaying every iteration step of real runs (position, draws consumed, constraint evaluations)."),
-    "C10": GEN_INIT + " Theorems C10_source_init_warm_start_refines, C10_source_initializer_spec, C10_source_warm_start_in_init_list (C10's list-membership theorem for the generated Initializer).",
+    "C10": GEN_INIT + " Theorems C10_source_init_warm_start_refines, C10_source_initializer_spec, C10_source_warm_start_in_init_list (C10's list-membership theorem for the generated Initializer). ALSO, harness/translate_pop.py re-translates split() of base_population_optimizer.py into generated/PopGen.v; theorem C10_source_split_round_robin (proofs/PopTie.v).",
     "C02": (GEN_INIT + " Theorem C02_source_random_inits_feasible." + GEN_CORE + " Theorems C02_source_move_random_feasible, C02_source_move_climb_feasible, C02_source_random_iteration_feasible."
             " ALSO: C02_pso_iterate, C02_spiral_iterate, C02_de_iterate, C02_cross_or_climb (theories/Pop.v): the emitted position "
             "of the population optimizers' iterate is feasible on every path (first candidate, constraint loop, move_climb fallback, "
@@ -339,7 +339,7 @@ def main():
         engines=[
             dict(name="coq-model", path="/verif/coq", serves_properties=sorted(CLAIMS), kind_free_text="hand-written Gallina model (theories/), lemmas (proofs/), property theorems (props/Prop_Cxx.v, each with Print Assumptions)"),
             dict(name="source-translators", path="/verif/harness/pytrans.py", serves_properties=["C01", "C02", "C03", "C04", "C05", "C06", "C08", "C10", "C11", "C12", "C13", "C14", "C15", "C16", "C17", "C18", "C19"],
-                 kind_free_text="translate_facades.py (C18 data), translate_core.py (tracker layer: C15, C19), translate_driver.py (_stop_run.py, _progress_bar.py: C05, C12-C14), translate_grid.py (grid search: C16, C08), translate_search.py (search.py driver: C03, C12-C14, C18), translate_memory.py (_memory.py wrapper: C06, C11), translate_results.py (_results_manager.py wrapper: C04), translate_coreopt.py (core_optimizer.py moves: C01, C02, C08), translate_init.py (init_positions.py: C10, C02), translate_smbo.py (smbo.py bookkeeping: C17), translate_finish.py (Search.finish_search: C05): Gallina regenerated from /repo's AST on every run, refinement to the hand model proved in proofs/*Tie.v"),
+                 kind_free_text="translate_facades.py (C18 data), translate_core.py (tracker layer: C15, C19), translate_driver.py (_stop_run.py, _progress_bar.py: C05, C12-C14), translate_grid.py (grid search: C16, C08), translate_search.py (search.py driver: C03, C12-C14, C18), translate_memory.py (_memory.py wrapper: C06, C11), translate_results.py (_results_manager.py wrapper: C04), translate_coreopt.py (core_optimizer.py moves: C01, C02, C08), translate_init.py (init_positions.py: C10, C02), translate_smbo.py (smbo.py bookkeeping: C17), translate_finish.py (Search.finish_search: C05), translate_pop.py (population split: C10): Gallina regenerated from /repo's AST on every run, refinement to the hand model proved in proofs/*Tie.v"),
             dict(name="correspondence", path="/verif/harness", serves_properties=sorted(CLAIMS), kind_free_text="K/D/S units: implementation and model run on the same inputs; the model is evaluated inside Coq (generated cases files, vm_compute)"),
             dict(name="monitors", path="/verif/harness/props", serves_properties=sorted(CLAIMS), kind_free_text="direct Python encodings of each property used to find concrete failing inputs (replays); never the proof"),
         ],
